@@ -4,7 +4,7 @@ from collections import Counter
 from . import repo, trainer, trainlists, oracles, monitors
 
 def gen_train_case(rng, encodings=None, coverages=(0.3, 0.6, 1.0), allow_ew=True, max_len_choices=(6, 7, 8, 9)):
-    enc = rng.choice(encodings or ['utf-8', 'utf-8', 'utf-8', 'latin-1', 'cp1251', 'cp1252', 'ascii', 'iso-8859-7'])
+    enc = rng.choice(encodings or ['utf-8', 'utf-8', 'utf-8', 'latin-1', 'cp1251', 'cp1252', 'ascii', 'iso-8859-7', 'cp1254'])
     items = trainlists.gen_list(rng, enc, allow_ew=allow_ew)
     # OMEN-starved trainings: a tiny learned alphabet and long n-grams leave (almost) no initial n-gram inside the alphabet, so often no OMEN level has any
     # keyspace; with coverage < 1 the trainer must refuse (or otherwise not write a Markov structure nothing can be generated from)
